@@ -36,6 +36,7 @@ inductive Err where
   | depthExceeded
   | zeroColumnRows
   | badTemporal
+  | columnNotFound
   /-- a value parser panicked (`Fail.panic` of Model/Temporal.lean) — C20 proves this outcome away -/
   | panic
   deriving DecidableEq, Repr
@@ -692,5 +693,67 @@ def loadFile : Reader FileContent := do
   let c ← readCatalog
   let d ← readMany (readTableData c.tables) c.tables.length
   pure ⟨c, d⟩
+
+/-! ### index rebuild at the end of `read_data` (index_maintenance.rs `apply_prefix_truncation`)
+
+After the rows are loaded every index of the catalog is created again over them.  A prefix index
+column `col(n)` keys on the first `n` characters: `s.chars().take(n).collect()`, for every `n`
+including 0 (the SQL parser refuses `col(0)`, a file can say it). -/
+
+/-- the first `n` characters of a UTF-8 string (a character = a non-continuation byte and the
+    continuation bytes that follow it) -/
+def takeChars : Nat → Bytes → Bytes
+  | _, [] => []
+  | n, b :: r =>
+    if Temporal.isCont b then b :: takeChars n r
+    else match n with
+      | 0 => []
+      | n + 1 => b :: takeChars n r
+
+def applyPrefix (p : Option Nat) : BVal → BVal
+  | .varchar s => match p with | some n => .varchar (takeChars n s) | none => .varchar s
+  | .character s => match p with | some n => .character (takeChars n s) | none => .character s
+  | v => v
+
+def mapE (g : α → Except Err β) : List α → Except Err (List β)
+  | [] => .ok []
+  | a :: l =>
+    match g a with
+    | .error e => .error e
+    | .ok b =>
+      match mapE g l with
+      | .error e => .error e
+      | .ok bs => .ok (b :: bs)
+
+structure BuiltIndex where
+  name : Bytes
+  keys : List (List BVal)
+  deriving Repr
+
+def colPos (t : TableDef) (name : Bytes) : Option Nat :=
+  let rec go (i : Nat) : List ColDef → Option Nat
+    | [] => none
+    | c :: r => if upper c.name == upper name then some i else go (i + 1) r
+  go 0 t.cols
+
+def buildIndex (f : FileContent) (i : IdxDef) : Except Err BuiltIndex :=
+  match f.catalog.tables.find? (fun t => upper t.name == upper i.table) with
+  | none => .error .tableNotFound
+  | some t =>
+    match mapE (fun c : IdxCol => match colPos t c.name with
+        | some p => .ok (p, c.pfx)
+        | none => .error .columnNotFound) i.cols with
+    | .error e => .error e
+    | .ok pos =>
+      let rows := ((f.data.filter (fun d => upper d.name == upper t.name)).map (·.rows)).flatten
+      match mapE (fun r : Row => mapE (fun (pp : Nat × Option Nat) => match r[pp.1]? with
+          | some v => .ok (applyPrefix pp.2 v)
+          | none => .error .columnNotFound) pos) rows with
+      | .error e => .error e
+      | .ok keys => .ok ⟨i.name, keys⟩
+
+/-- the index rebuild of a loaded file -/
+def rebuildIndexes (f : FileContent) : Except Err (List BuiltIndex) :=
+  mapE (buildIndex f) f.catalog.indexes
 
 end VibeProof.BinCodec
